@@ -358,12 +358,13 @@ class Graph(object):
         return out
 
     def analyse(self, m, root, module_level):
-        ops = {'reads': set(), 'writes': [], 'dynamic': []}
+        ops = {'reads': set(), 'writes': [], 'dynamic': [], 'write_vars': set()}
         for kind, key, what, line in self.env_ops_in(m, root, module_level):
             if kind == 'read':
                 ops['reads'].add(key)
             else:
                 ops['writes'].append(('%s %s' % (what, key), line))
+                ops['write_vars'].add(key)
         refs = set()
         for t, node, _ in self.refs_in(m, root, module_level):
             if t[0] == '<dynamic>':
@@ -821,6 +822,70 @@ TARGETS = [('window_score', 'pydl/photoop/window.py'), ('template_input', 'pydl/
 HELPERS = ['pydl/pydlspec2d/spec1d.py:template_metadata', 'pydl/pydlspec2d/spec1d.py:_template_input']
 
 
+def _literal(node):
+    try:
+        v = ast.literal_eval(node)
+    except (ValueError, SyntaxError, TypeError):
+        return '<expr>'
+    return v if isinstance(v, (bool, int, float, str, type(None))) else '<expr>'
+
+
+def _handler_classes(fnode):
+    out = []
+    for n in ast.walk(fnode):
+        if isinstance(n, ast.ExceptHandler) and n.type is not None:
+            for t in (n.type.elts if isinstance(n.type, ast.Tuple) else [n.type]):
+                name = t.id if isinstance(t, ast.Name) else t.attr if isinstance(t, ast.Attribute) else None
+                if name and name not in out:
+                    out.append(name)
+    return out
+
+
+def run_matrix(graph, rel, fname, inlined=()):
+    """What the real runs must vary, read off the source (independent of whether the skeleton is recognised):
+    the keyword options of the entry point with their defaults; the exception classes its handlers (and those of the
+    inlined helpers) name -- a fault of such a class takes the handler path; the environment variables that the module
+    bodies of pydl modules reachable from the entry point read or write (import-time effects), and which of those
+    modules are NOT imported by importing the entry point's own module (they are imported lazily, during the call)."""
+    node = graph.mods[rel].funcs[fname]
+    a = node.args
+    pos = list(getattr(a, 'posonlyargs', [])) + list(a.args)
+    defaults = [None] * (len(pos) - len(a.defaults)) + list(a.defaults)
+    kws = [[x.arg, _literal(d)] for x, d in zip(pos, defaults) if d is not None]
+    kws += [[x.arg, _literal(d)] for x, d in zip(a.kwonlyargs, a.kw_defaults) if d is not None]
+    required = [x.arg for x, d in zip(pos, defaults) if d is None]
+    handlers = _handler_classes(node)
+    for spec in inlined:
+        r2, q = spec.split(':', 1)
+        f2 = graph.mods.get(r2) and graph.mods[r2].funcs.get(q)
+        if f2 is not None:
+            for h in _handler_classes(f2):
+                if h not in handlers:
+                    handlers.append(h)
+    reach = graph.reach((rel, fname))
+    mod_units = sorted(x for x in reach if x[1] == '<module>')
+    # import closure of the entry point's own module: module bodies only, through module-level imports
+    eager = set()
+    todo = list(graph.module_units(graph.mods[rel].dotted))
+    while todo:
+        x = todo.pop()
+        if x in eager:
+            continue
+        eager.add(x)
+        todo.extend(y for y in graph.refs.get(x, ()) if y[1] == '<module>')
+    ivars = set()
+    wvars = set()
+    for x in mod_units:
+        ivars |= graph.ops[x]['reads'] | graph.ops[x]['write_vars']
+        wvars |= graph.ops[x]['write_vars']
+    return {'keywords': kws, 'required': required, 'handler_classes': handlers,
+            'module': graph.mods[rel].dotted,
+            'import_time_vars': sorted(v for v in ivars if v != '*'),
+            'import_time_writes': sorted(wvars),
+            'lazy_modules': sorted(x[0] for x in mod_units if x not in eager),
+            'eager_modules': sorted(x[0] for x in eager)}
+
+
 def coq_strings(items):
     return '[' + '; '.join('"%s"' % s.replace('"', "'") for s in items) + ']'
 
@@ -840,10 +905,12 @@ def generate(repo):
     uninlined_all = []
     covered = set()
     reach_writers = set()
+    info['matrix'] = {}
     for fname, rel in TARGETS:
         try:
             if rel not in graph.mods or fname not in graph.mods[rel].funcs:
                 raise Unrecognised('function %s not found' % fname)
+            info['matrix'][fname] = run_matrix(graph, rel, fname, [h for h in HELPERS if h.startswith(rel + ':')])
             tr = Tr(graph, rel)
             tr.stack.append((rel, fname))
             prog = tr.block(graph.mods[rel].funcs[fname].body, {})
@@ -856,6 +923,7 @@ def generate(repo):
                 ', '.join(inl) or '-'))
             out.append('Definition %s_vars : list var := [%s].' % (fname, '; '.join(str(i) for i in range(len(names)))))
             out.append('Definition %s_skel : prog :=\n  %s.\n' % (fname, prog))
+            info['matrix'][fname] = run_matrix(graph, rel, fname, inl)
             reads = graph.reads((rel, fname))
             writers = [fid(w) for w in graph.writers((rel, fname))]
             covered |= set(inl) | {fid((rel, fname))}
